@@ -161,9 +161,8 @@ CLAIMED["C19"] = dict(
     ref="6 C19")
 
 CLAIMED["C09"] = dict(
-    category="partial",
     technique="Lean specification of C11 7.21.6.1 (exact integer and IEEE-754 arithmetic) + model of the scanner, writers and padding + T-corr three ways (implementation / model, glibc / Lean spec, implementation / exact big-integer reference)",
-    text="Theorems: for every format built from c s d i o u x X p %% (all flags, width, precision, '*', length modifiers), every "
+    text="PROOF for the integer/char/string/pointer conversions, PARTIAL (correspondence) for floating point digits. Theorems: for every format built from c s d i o u x X p %% (all flags, width, precision, '*', length modifiers), every "
          "argument list and every destination, the model of the formatter writes exactly the specification's text and returns its "
          "length (formatter_meets_spec; via per-writer lemmas for sign, zero-fill, '#', zero value with zero precision, negative '*' "
          "width and the padding insertion offsets); laws of the specification: digits are positional notation in every base 2..16 "
